@@ -256,3 +256,24 @@ check(
     level_note="trusted: the closed-form definitions in the harness (MATLAB/scipy conventions) and the long-double I0 series",
     assumptions=["the pass/stop masks are only applied to default (Hamming) designs, as the statement says; custom windows are checked for length, symmetry, unit gain and rejection of wrong lengths"],
 )
+
+check(
+    "C12",
+    runs=[dict(harness="C12_adaptive", flavour="plain")],
+    rule=("LMS, NLMS and RLS filters, real and complex, lengths {2..10,12,16,24,33,48,64}, random step sizes / leakage / forgetting factors "
+          "0.9..1 / diagonal loads 1e-2..1e4, random unknown systems and random lock schedules: streams fed one sample at a time - e == d-y "
+          "exactly, y equals sum_j c_j x[k-j] with c = coeffs() read BEFORE the call ((L+8)*eps*sum|c||x|), coefficients bitwise unchanged "
+          "while locked, coefficient trajectory within 1e-7 of a long-double reference recursion; the same stream in random frames must give "
+          "the same y/e; locked filter == fixed FIR with coeffs(); noise-free convergence of NLMS (after ceil(60L/(mu(2-mu))) samples) and RLS "
+          "(40L+200, or 6000 for lambda=1) to misalignment < 1e-6; real RLS after N<=200 samples vs the long-double solution of the "
+          "exponentially weighted, diagonally regularised normal equations. distinct = (configuration, input bits)."),
+    min_distinct={"quick": 600, "thorough": 1800},
+    min_obs={"quick": {"locked_samples": 5000, "adapting_samples": 20000, "convergence_runs": 60, "rls_batch_runs": 30},
+             "thorough": {"locked_samples": 15000, "adapting_samples": 60000, "convergence_runs": 180, "rls_batch_runs": 90}},
+    technique="runtime monitor: per-sample a-priori oracle using coeffs() read before each call, long-double shadow recursion, batch least-squares reference",
+    level_text=("Each filter is driven sample by sample with its coefficients observed before every call, so that the a-priori property, "
+                "the error identity and the lock are judged per sample; convergence and the least-squares equivalence are judged on "
+                "complete runs. Held on the samples counted in the evidence."),
+    level_note="trusted: long double reference recursions written from the textbook (and the header comments); coeffs() as the observation point",
+    assumptions=["convergence horizons are the harness's bounded-progress restatement: 60L/(mu(2-mu)) samples for NLMS, 40L+200 (6000 for lambda=1) for RLS"],
+)
